@@ -28,6 +28,9 @@ VOICES_CREF = ["R&amp;D", "Tom &amp; Al", "a&lt;b"]
 V_VERTICAL = ["rl", "lr"]
 V_LINE_PCT = ["0%", "10%", "50%", "85%", "100%", "37.5%"]
 V_LINE_NUM = ["0", "1", "5", "-1", "-3", "22"]
+# line numbers at and beyond the edges of the line grid in either direction (23 rows, 40 columns for vertical cues in ttconv;
+# whatever the grid, the region stays inside the root container with non-negative extent)
+V_LINE_NUM_FAR = ["-22", "-23", "-24", "-25", "-26", "-40", "-41", "-42", "-43", "-100", "-1000", "23", "24", "39", "40", "41", "1000"]
 V_LINE_ALIGN = [None, "start", "center", "end"]
 V_POSITION = ["0%", "10%", "50%", "90%", "100%"]
 V_POSITION_ALIGN = [None, "line-left", "center", "line-right"]
@@ -302,7 +305,7 @@ def gen_settings(rng, p_each=0.3):
   if rng.random() < p_each * 0.6:
     s.append(["vertical", rng.choice(V_VERTICAL)])
   if rng.random() < p_each * 1.4:
-    v = rng.choice(V_LINE_PCT if rng.random() < 0.5 else V_LINE_NUM)
+    v = rng.choice(V_LINE_PCT if rng.random() < 0.5 else (V_LINE_NUM if rng.random() < 0.8 else V_LINE_NUM_FAR))
     al = rng.choice(V_LINE_ALIGN)
     s.append(["line", v + ("," + al if al else "")])
   if rng.random() < p_each:
@@ -330,6 +333,17 @@ def all_setting_combinations():
               if v is not None:
                 s.append([name, v])
             yield s
+
+
+def far_line_combinations():
+  """Line numbers at and beyond the grid x writing direction x line alignment x a size."""
+  for v in V_LINE_NUM_FAR:
+    for vert in [None] + V_VERTICAL:
+      for al in ("", "end", "center"):
+        s = [["line", v + ("," + al if al else "")]]
+        if vert is not None:
+          s.append(["vertical", vert])
+        yield s
 
 
 def _gen_atoms(rng, tok, nlines, allow_cref):
